@@ -1088,6 +1088,7 @@ func TestCheck(t *testing.T) {
 		"or at least two accepted calls before the first rejection.",
 		reps, strings.Join(famDesc, ", "), len(fullGraph), len(fullChain), len(fullWorkflow), len(bases),
 		len(scenarios), map[bool]string{false: "", true: " and every ordered pair of late operations (those on a kept GraphInfo excepted) followed by Compile"}[cfg.Thorough()], totalLates(), nRandom, len(runInputs))
+	rule += pairOrderRule(cfg)
 	rep := mon.NewReporter(cfg, "exploration", rule, []string{
 		"node bodies, branch conditions and state handlers are deterministic pure functions of their input (and the per-run state)",
 		"error-ness, error identity (errors.Is with the first error / ErrGraphCompiled) and panics are compared, never message texts",
@@ -1172,7 +1173,25 @@ func TestCheck(t *testing.T) {
 		rep.Count("children_sampling", 1)
 	}
 
-	rep.Cases(int64(len(myUnits))+myRandom, func(idx int64, rng *mon.Rand) {
+	// appended after the other sampled cases (their indices and generators stay as they were): Workflow declarations
+	// on one pair of nodes in every order (wf_pair_order_test.go)
+	var myPairs int64
+	if randRank >= 0 {
+		myPairs = int64(pairOrderCount(cfg) / nRand)
+		if randRank < pairOrderCount(cfg)%nRand {
+			myPairs++
+		}
+	}
+
+	rep.Cases(int64(len(myUnits))+myRandom+myPairs, func(idx int64, rng *mon.Rand) {
+		if k := idx - int64(len(myUnits)) - myRandom; k >= 0 {
+			pc := pairOrderGen(rng)
+			c.checkPairOrder(pc)
+			if k < 3 {
+				rep.Sample(pc)
+			}
+			return
+		}
 		if idx < int64(len(myUnits)) {
 			u := units[myUnits[idx]]
 			if u.fam == -2 {
@@ -1196,6 +1215,9 @@ func TestCheck(t *testing.T) {
 			rep.Count("enumerated_sequences", u.count)
 			return
 		}
+		// every sampled case is accompanied by one chain construction "branch, then a stage fed by all its targets"
+		// from its own generator (chain_branch_tail_test.go), so the sampled sequences below stay what they were
+		c.checkChainBranchTail(mon.Fork(cfg.Seed, "chain-branch-tail", fmt.Sprint(cfg.Shard), fmt.Sprint(idx)))
 		switch k := (idx - int64(len(myUnits))) % 16; {
 		case k >= 14:
 			lc := laterSeq(rng)
@@ -1251,6 +1273,7 @@ func TestCheck(t *testing.T) {
 	})
 
 	// the monitors must have observed something of every kind
+	pairOrderRequire(rep)
 	rep.Require("sequences_compiled", 50)
 	rep.Require("add_after_compile_rejected", 50)
 	rep.Require("sticky_errors_checked", 500)
